@@ -327,6 +327,29 @@ def b7(run, tu):
                'view->len becomes %s, the object holds %s bytes: buf[a:b] = <this cdata> compares it with the slice length in bytes' % (got, want if want >= 0 else 'an unknown number of'))
 
 
+def b8(run, tu):
+    """ffi.buffer(cdata, n) exposes exactly n bytes for every n >= 0 (0 included); without n, the size of the cdata"""
+    fn = 'b_buffer_new'
+    g = cfg_of(tu, fn)
+    F = rules.macro_flags(tu, 'CT_')
+    parse = [n for n in g.nodes if n.ast is not None and any('ParseTupleAndKeywords' in (cx.callee_name(c) or '') for c in cx.calls_in(n.ast))]
+    run.need(len(parse) == 1 and parse[0].kind == 'cond', '%s: the argument parsing test not found' % fn)
+    start = [t for t, l in parse[0].succ if g.nodes[t].kind != 'return']       # the branch that goes on (the other one returns NULL)
+    run.need(len(start) == 1, '%s: argument parsing shape' % fn)
+    for given, want in ((0, 0), (1, 1), (5, 5), (24, 24), (-1, 24)):
+        got = []
+        env = {'size': Con(given, 64, True), 'cd->c_type->ct_flags': Con(F['CT_ARRAY'], 32, True), 'cd->c_type->ct_itemdescr->ct_size': Con(4, 64, True)}
+        hooks = {'_cdata_var_byte_size': lambda a, e: Con(24, 64, True), 'get_array_length': lambda a, e: Con(6, 64, True), 'cdataowning_size_bytes': lambda a, e: Con(24, 64, True),
+                 'minibuffer_new': lambda a, e: got.append(a[1] if len(a) > 1 else None) or absint.TOP}
+        it = absint.Interp(g, env, hooks, const_vars={'cd->c_type->ct_flags', 'cd->c_type->ct_itemdescr->ct_size'})
+        it.run_from(start[0], env, set())
+        vals = sorted({v.v if isinstance(v, Con) else None for v in got}, key=str)
+        if not got or None in vals:
+            raise AnalysisError('%s: the size handed to minibuffer_new is not decided for size=%d (%s)' % (fn, given, vals))
+        run.ob('B8/buffer-has-the-requested-number-of-bytes', fn, 'ffi.buffer(<int[6]>, %s)' % (given if given >= 0 else 'no size'), vals == [want], tu.where(tu.func(fn)),
+               'the buffer gets %s bytes, expected %d' % (vals, want))
+
+
 def check(run):
     run.explanation = (
         'CFG dominance for the range tests of item access; constant propagation through the three clamps of the slice '
@@ -344,11 +367,13 @@ def check(run):
     b5(run, tu)
     b6(run, tu)
     b7(run, tu)
+    b8(run, tu)
     run.min_instances('B1', 6)
     run.min_instances('B2', 7)
     run.min_instances('B4', 6)
     run.min_instances('B5', 8)
     run.min_instances('B6', 5)
     run.min_instances('B7', 5)
+    run.min_instances('B8', 5)
     run.assume('PyBuffer_Release reads view->obj and is a no-op when it is NULL (CPython); PyObject_GetBuffer fills every field on success')
     run.assume('byte-for-byte equality with a bytearray model is behavioural and not decided')
